@@ -23,7 +23,10 @@
 // ops (fields not listed for an op are ignored):
 //
 //	{"op":"subscribe","s":0,"topic":"t1"}      {"op":"unsubscribe","s":0,"topic":"t1"}
-//	{"op":"publish","s":1,"topic":"t1","ack":true,"repeat":1,"hold_until":""}
+//	{"op":"publish","s":1,"topic":"t1","ack":true,"repeat":1,"hold_until":"",
+//	      "filter":"exclude|exclude_authrole|exclude_authid","disclose_me":true,"to_self":true}
+//	     filter: a black/white-list option that excludes nobody (so that the broker
+//	     builds a publish filter); to_self: exclude_me=false
 //	{"op":"register","s":2,"proc":"p1"}        {"op":"unregister","s":2,"proc":"p1"}
 //	{"op":"call","s":1,"proc":"p1","timeout_ms":0,"hold":false,"ppt":""}
 //	     the callee answers automatically unless "hold":true; then a later
@@ -113,7 +116,13 @@ type Op struct {
 	Wrap      bool   `json:"wrap,omitempty"`
 	Ms        int    `json:"ms,omitempty"`
 	Mode      string `json:"mode,omitempty"` // cancel: kill | killnowait | skip (default: none given)
-	Ops       []Op   `json:"ops,omitempty"`
+	// publish: a receiver filter that excludes nobody ("exclude": a session id
+	// nobody has | "exclude_authrole": ["nobody-role"] | "exclude_authid": ["nobody"]),
+	// disclose_me, and exclude_me=false
+	Filter   string `json:"filter,omitempty"`
+	Disclose bool   `json:"disclose_me,omitempty"`
+	ToSelf   bool   `json:"to_self,omitempty"`
+	Ops      []Op   `json:"ops,omitempty"`
 }
 
 // CloseSpec says where Close / RemoveRealm is injected (C06).
@@ -145,6 +154,8 @@ type History struct {
 	YieldResume *YieldResumeSpec `json:"yield_resume,omitempty"`
 	// CancelStalled: the scripted scenario of cancelstalled_test.go instead of ops.
 	CancelStalled *CancelStalledSpec `json:"cancel_stalled,omitempty"`
+	// ChunkStalled: the scripted scenario of chunkstalled_test.go instead of ops.
+	ChunkStalled *ChunkStalledSpec `json:"chunk_stalled,omitempty"`
 }
 
 // usesSession tells whether the op kind addresses session S.
@@ -181,6 +192,15 @@ func (o Op) MarshalJSON() ([]byte, error) {
 		boolean("ack", o.Ack)
 		if o.Repeat > 1 {
 			num("repeat", o.Repeat)
+		}
+		if o.Filter != "" {
+			str("filter", o.Filter)
+		}
+		if o.Disclose {
+			boolean("disclose_me", true)
+		}
+		if o.ToSelf {
+			boolean("to_self", true)
 		}
 	case "register", "unregister":
 		str("proc", o.Proc)
